@@ -36,6 +36,7 @@ import (
 	"go/printer"
 	"go/token"
 	"os"
+	"sort"
 	"strconv"
 	"strings"
 )
@@ -67,6 +68,10 @@ type xl struct {
 	nsite       int
 	rename      map[string]string
 	errs        []string
+	siteOps     map[int][]string // site -> shared-memory operations performed at it ("ACAS:state", "close", ..)
+	siteFunc    map[int]string   // site -> function containing it
+	curFunc     string
+	siteAt      map[int]int // file offset of the sited statement / condition -> site (for -ir2)
 }
 
 func isAtomicType(e ast.Expr) bool {
@@ -165,9 +170,49 @@ func (x *xl) needsSite(n ast.Node) bool {
 	return found
 }
 
-func (x *xl) newSite() int {
+// opsOf lists the shared-memory operations inside a node (function literals are not entered).
+func (x *xl) opsOf(n ast.Node) []string {
+	var ops []string
+	if n == nil {
+		return ops
+	}
+	ast.Inspect(n, func(m ast.Node) bool {
+		switch e := m.(type) {
+		case *ast.FuncLit:
+			return false
+		case *ast.CallExpr:
+			if id, ok := e.Fun.(*ast.Ident); ok && id.Name == "close" {
+				ops = append(ops, "close")
+			}
+			if k, f, ok := x.sharedOp(e); ok {
+				ops = append(ops, k+":"+f)
+			}
+		case *ast.UnaryExpr:
+			if e.Op == token.ARROW {
+				ops = append(ops, "recv")
+			}
+		case *ast.SendStmt:
+			ops = append(ops, "send")
+		case *ast.SelectStmt:
+			ops = append(ops, "select")
+		}
+		return true
+	})
+	return ops
+}
+
+// newSite allocates the next site of the current function; n is the statement / condition the
+// yield is put in front of (its operations go to the site table written by -sites).
+func (x *xl) newSite(n ast.Node) int {
 	s := x.fnCode*100 + x.nsite
 	x.nsite++
+	if x.siteOps != nil {
+		x.siteOps[s] = x.opsOf(n)
+		x.siteFunc[s] = x.curFunc
+	}
+	if x.siteAt != nil && n != nil && n.Pos().IsValid() {
+		x.siteAt[x.fset.Position(n.Pos()).Offset] = s
+	}
 	return s
 }
 
@@ -337,7 +382,7 @@ func (x *xl) sited(n ast.Node, inElse bool, what string) (int, []ast.Stmt) {
 	if !x.needsSite(n) {
 		return -1, nil
 	}
-	site := x.newSite()
+	site := x.newSite(n)
 	if inElse {
 		x.errs = append(x.errs, fmt.Sprintf("%s: %s with an operation in else-if position", x.fset.Position(n.Pos()), what))
 	}
@@ -377,7 +422,7 @@ func (x *xl) stmt(s ast.Stmt, inElse bool) (ast.Stmt, []ast.Stmt, []string) {
 		site := -1
 		var pre []ast.Stmt
 		if x.needsSite(t.Cond) {
-			site = x.newSite()
+			site = x.newSite(t.Cond)
 			if !inElse {
 				pre = append(pre, yieldStmt(site))
 			} else {
@@ -406,7 +451,7 @@ func (x *xl) stmt(s ast.Stmt, inElse bool) (ast.Stmt, []ast.Stmt, []string) {
 		site := -1
 		text := x.src(t)
 		if x.needsSite(t.Cond) {
-			site = x.newSite()
+			site = x.newSite(t.Cond)
 			t.Cond = yieldCond(site, t.Cond)
 		}
 		body, _ := x.block(t.Body.List)
@@ -427,7 +472,17 @@ func (x *xl) stmt(s ast.Stmt, inElse bool) (ast.Stmt, []ast.Stmt, []string) {
 		if sw, ok := t.(*ast.SwitchStmt); ok {
 			hdr := x.needsSite(sw.Init) || x.needsSite(sw.Tag)
 			if hdr {
-				site = x.newSite()
+				var hdrNodes []ast.Stmt
+				if sw.Init != nil {
+					hdrNodes = append(hdrNodes, sw.Init)
+				}
+				if sw.Tag != nil {
+					hdrNodes = append(hdrNodes, &ast.ExprStmt{X: sw.Tag})
+				}
+				site = x.newSite(&ast.BlockStmt{List: hdrNodes})
+				if x.siteAt != nil {
+					x.siteAt[x.fset.Position(sw.Pos()).Offset] = site
+				}
 				if inElse {
 					x.errs = append(x.errs, fmt.Sprintf("%s: unsupported position of a switch with operations", x.fset.Position(t.Pos())))
 				}
@@ -447,7 +502,7 @@ func (x *xl) stmt(s ast.Stmt, inElse bool) (ast.Stmt, []ast.Stmt, []string) {
 		return t, pre, []string{"SOther " + gsite(site) + " " + gstr(text)}
 	case *ast.SelectStmt:
 		text := x.src(t)
-		site := x.newSite()
+		site := x.newSite(t)
 		if inElse {
 			x.errs = append(x.errs, fmt.Sprintf("%s: unsupported position of a select", x.fset.Position(t.Pos())))
 		}
@@ -466,7 +521,10 @@ func (x *xl) stmt(s ast.Stmt, inElse bool) (ast.Stmt, []ast.Stmt, []string) {
 	case *ast.DeferStmt:
 		if x.needsSite(t.Call) {
 			// the deferred operation runs at function exit: wrap it so that it yields first
-			site := x.newSite()
+			site := x.newSite(t.Call)
+			if x.siteAt != nil {
+				x.siteAt[x.fset.Position(t.Pos()).Offset] = site
+			}
 			text := other(site, t)
 			call := t.Call
 			t.Call = &ast.CallExpr{Fun: &ast.FuncLit{
@@ -566,9 +624,19 @@ func main() {
 	funcs := flag.String("funcs", "Add,Wait,Count", "functions listed in the IR, in this order")
 	codes := flag.String("codes", "Add=1,Wait=2,Count=3", "site codes of functions")
 	name := flag.String("name", "gen_prog", "name of the generated definition")
+	sitesOut := flag.String("sites", "", "write the site table (JSON: site -> function, operations) here")
+	ir2Out := flag.String("ir2", "", "write the second IR (Base/ConcIR2.v terms: gen_prog2, gen_sitemap) here")
+	sitemapOut := flag.String("sitemap", "", "write the canonical site table of -ir2 (JSON: function -> site -> canonical site) here")
+	wrapperFns := flag.String("wrappers", "", "-ir2: further functions re-stated as gen_wrappers (Inc,Dec)")
+	timedFns := flag.String("timed", "", "-ir2: functions summarised as deadline selects (gen_timed : list WGTimed.timed_shape)")
 	flag.Parse()
 	fset := token.NewFileSet()
-	f, err := parser.ParseFile(fset, *src, nil, parser.ParseComments)
+	srcBytes, err := os.ReadFile(*src)
+	if err != nil {
+		fmt.Fprintln(os.Stderr, err)
+		os.Exit(1)
+	}
+	f, err := parser.ParseFile(fset, *src, srcBytes, parser.ParseComments)
 	if err != nil {
 		fmt.Fprintln(os.Stderr, err)
 		os.Exit(1)
@@ -582,6 +650,15 @@ func main() {
 		}
 	}
 	x := &xl{fset: fset, atomicField: map[string]bool{}, mutexField: map[string]bool{}}
+	if *sitesOut != "" {
+		x.siteOps, x.siteFunc = map[int][]string{}, map[int]string{}
+	}
+	if *ir2Out != "" {
+		x.siteAt = map[int]int{}
+		if x.siteOps == nil {
+			x.siteOps, x.siteFunc = map[int][]string{}, map[int]string{}
+		}
+	}
 	x.collectFields(f)
 	irOf := map[string]string{}
 	next := 10
@@ -596,6 +673,7 @@ func main() {
 			next++
 		}
 		x.fnCode, x.nsite = code, 0
+		x.curFunc = fd.Name.Name
 		x.rename = map[string]string{}
 		x.recv = ""
 		if fd.Recv != nil && len(fd.Recv.List) > 0 && len(fd.Recv.List[0].Names) > 0 {
@@ -624,6 +702,30 @@ func main() {
 			fmt.Fprintln(os.Stderr, "xlate_conc:", e)
 		}
 		os.Exit(3)
+	}
+	if *sitesOut != "" {
+		var keys []int
+		for k := range x.siteOps {
+			keys = append(keys, k)
+		}
+		sort.Ints(keys)
+		var b strings.Builder
+		b.WriteString("{")
+		for i, k := range keys {
+			if i > 0 {
+				b.WriteString(",")
+			}
+			ops := make([]string, len(x.siteOps[k]))
+			for j, o := range x.siteOps[k] {
+				ops[j] = strconv.Quote(o)
+			}
+			fmt.Fprintf(&b, "\n %q: {\"func\": %q, \"ops\": [%s]}", strconv.Itoa(k), x.siteFunc[k], strings.Join(ops, ", "))
+		}
+		b.WriteString("\n}\n")
+		if err := os.WriteFile(*sitesOut, []byte(b.String()), 0o644); err != nil {
+			fmt.Fprintln(os.Stderr, err)
+			os.Exit(1)
+		}
 	}
 	if *instr != "" {
 		var buf bytes.Buffer
@@ -658,6 +760,35 @@ func main() {
 		if err := os.WriteFile(*ir, []byte(b.String()), 0o644); err != nil {
 			fmt.Fprintln(os.Stderr, err)
 			os.Exit(1)
+		}
+	}
+	if *ir2Out != "" {
+		// a second, untouched parse of the same file: same offsets, no yields
+		fset2 := token.NewFileSet()
+		f2, err := parser.ParseFile(fset2, *src, srcBytes, parser.ParseComments)
+		if err != nil {
+			fmt.Fprintln(os.Stderr, err)
+			os.Exit(1)
+		}
+		x.fset = fset2
+		var timed []string
+		if *timedFns != "" {
+			timed = strings.Split(*timedFns, ",")
+		}
+		var wrappers []string
+		if *wrapperFns != "" {
+			wrappers = strings.Split(*wrapperFns, ",")
+		}
+		coq, sm := emitIR2(x, fset2, f2, x.siteAt, strings.Split(*funcs, ","), codeOf, *src, timed, wrappers)
+		if err := os.WriteFile(*ir2Out, []byte(coq), 0o644); err != nil {
+			fmt.Fprintln(os.Stderr, err)
+			os.Exit(1)
+		}
+		if *sitemapOut != "" {
+			if err := os.WriteFile(*sitemapOut, []byte(sm), 0o644); err != nil {
+				fmt.Fprintln(os.Stderr, err)
+				os.Exit(1)
+			}
 		}
 	}
 }
